@@ -144,6 +144,7 @@ def run(rep):
                 else:
                     bad = evs != exp
             else:
+                evs = [e for e in evs if e != "os.close"]      # closing a file opened for reading: not a mutation
                 body = evs[1:] if (op.startswith("commit") and evs[:1] == ["kv.txn"]) else evs
                 bad = len(body) % 3 != 0 or any(body[j:j + 3] != CLEAN for j in range(0, len(body), 3))
                 if op.startswith("commit") and res == "ok" and evs[:1] != ["kv.txn"] and any(
